@@ -21,7 +21,7 @@ ANCHORS = ['BitArray.append', 'BitArray.prepend', 'BitArray.insert', 'BitArray.o
            'BitArray.__irshift__', 'BitArray.__imul__', 'BitArray.__iand__', 'BitArray.__ior__', 'BitArray.__ixor__',
            'BitArray.clear', 'BitArray.__iadd__', 'Bits._imul', 'Bits._reversebytes', 'Bits._overwrite', 'Bits._insert',
            'BitStream.insert', 'BitStream.replace', 'BitStream.__setitem__', 'BitStream.__delitem__', 'ConstBitStream.overwrite']
-REQUIRED_OPS = list(_mut.OPS) + ['mutate-operand']
+REQUIRED_OPS = list(_mut.OPS) + ['mutate-operand', 'hold:findall-bytealigned', 'hold:split', 'hold:cut']
 MIN_EVALS = {'quick': 20000, 'thorough': 300000}
 ASSUMPTIONS = ['MSB0 mode (LSB0 mutators are judged by C12); stream positions are judged by C06']
 
@@ -35,6 +35,7 @@ def episode(ctx, case, nsteps=0):
     steps = case['steps']
     i = 0
     watched = []          # operands handed to earlier steps: [object, expected bits, op that used it]
+    held = []             # suspended generators over the receiver
     with util.options(lsb0=False, bytealigned=case.get('oba', False)):
         while True:
             if i < len(steps):
@@ -42,12 +43,29 @@ def episode(ctx, case, nsteps=0):
             elif i < nsteps and len(m) <= 400000:     # beyond that the episode costs more than the harness can afford to model
                 if watched and ctx.rng.random() < 0.12:
                     op, a = 'mutate-operand', [ctx.rng.randrange(len(watched)), ctx.rng.choice(['invert', 'append', 'clear'])]
+                elif ctx.rng.random() < 0.05:
+                    op, a = 'hold', [ctx.rng.choice(['findall-bytealigned', 'findall', 'split', 'split-bytealigned', 'cut', 'iter', 'findall-count'])]
                 else:
                     op, a = _mut.gen_step(ctx.rng, len(m))
                 steps.append([op, a])
             else:
                 break
             i += 1
+            if op == 'hold':
+                # a search over the receiver is started and left suspended (its generator stays referenced to the end of the episode):
+                # every later mutator must still do its documented job
+                pat = ('0x' + format(int(m[:8], 2), '02x')) if len(m) >= 8 else '0b1'
+                mk_gen = {'findall-bytealigned': lambda: s.findall(pat, bytealigned=True), 'findall': lambda: s.findall('0b1'), 'split': lambda: s.split(pat),
+                          'split-bytealigned': lambda: s.split(pat, bytealigned=True), 'cut': lambda: s.cut(8), 'iter': lambda: iter(s),
+                          'findall-count': lambda: s.findall(pat, count=3, bytealigned=True)}[a[0]]
+                got = util.call(lambda: (lambda g: (next(g, None), g)[1])(mk_gen()))
+                if got[0] == 'ok':
+                    held.append(got[1])
+                ctx.op('hold:' + a[0])
+                if util.B(s) != m:
+                    ctx.mismatch(f'C03|hold|{a[0]}|receiver-changed-by-starting-a-search', case, f'{m[:60]} -> {util.B(s)[:60]}')
+                    m = util.B(s)
+                continue
             if op == 'mutate-operand':
                 # "nothing else moves", in both directions: changing an operand of an EARLIER step must not reach the receiver
                 if a[0] < len(watched) and type(watched[a[0]][0]).__name__ in util.MUTABLE:
